@@ -64,10 +64,14 @@ func genStrTmplCase(r *Rng, out *outFiles, idx int) {
 	host := r.Pick([]string{"p", "p", "title", "div"})
 	var src, want string
 	esc := stdhtml.EscapeString(s)
-	if r.Bool() {
+	switch r.Intn(3) {
+	case 0:
 		src = "<" + host + " :text=" + delim + "${" + lit + "}" + delim + "></" + host + ">"
 		want = "<" + host + ">" + esc + "</" + host + ">"
-	} else {
+	case 1: // the literal's value IS the attribute value: nothing may be trimmed at its edges
+		src = "<" + host + " :title=" + delim + "${" + lit + "}" + delim + "></" + host + ">"
+		want = "<" + host + ` title="` + esc + `"></` + host + ">"
+	default:
 		src = "<" + host + " :title=" + delim + "a${" + lit + "}b" + delim + "></" + host + ">"
 		want = "<" + host + ` title="a` + esc + `b"></` + host + ">"
 	}
